@@ -61,7 +61,7 @@ fn jac_finite_differences<N, F, const V: usize>(
             params[col] -= h;
             params[col] -= h;
             let below = f(xs[row], params);
-            mat[(row, col)] = denom * (above + below);
+            mat[(row, col)] = denom * (above - below);
             params[col] += h;
         }
     }
@@ -288,6 +288,19 @@ where
 
     let mut params = SVector::<N, V>::from_column_slice(initial);
     let ys = DVector::<N>::from_column_slice(ys);
+
+    // The iteration stops once a step changes the sum of squared residuals by
+    // no more than tol. No step can do more than that if the sum is already
+    // within tol, so the initial guess is the answer.
+    let sum_sq_initial = xs
+        .iter()
+        .zip(ys.iter())
+        .map(|(&x, &y)| (y - f(x, &params)).modulus_squared())
+        .fold(N::RealField::zero(), |acc, r| acc + r);
+    if sum_sq_initial <= tol {
+        return Ok(params);
+    }
+
     let mut jac: DMatrix<N> = DMatrix::identity(xs.len(), params.len());
     jac_finite_differences(&mut f, xs, &mut params, &mut jac, h);
     let mut jac_transpose = jac.transpose();
